@@ -36,6 +36,37 @@ Proof.
 Qed.
 Print Assumptions C15_refines_redis.
 
+(* redis with wait() calls anywhere in between (the queue consuming the
+   announcement list or not): the storage operations still answer like the
+   reference store - in particular load() with pending announcements *)
+Theorem C15_refines_redis_wait : forall its s r,
+  RRedis s r -> wf_ops r (ritem_ops its) = true ->
+  RRedis (fst (redis_run_items s its)) (fst (ref_run r (ritem_ops its))) /\
+  Forall2 res_match (op_results its (snd (redis_run_items s its))) (snd (ref_run r (ritem_ops its))).
+Proof. exact refines_redis_items. Qed.
+Print Assumptions C15_refines_redis_wait.
+
+(* load() does not depend on the announcement list and leaves the store alone *)
+Theorem C15_redis_load_ignores_announcements : forall s q now,
+  snd (run rexec (redis_prog (OLoad now)) (mkRedis (r_hashes s) q)) = snd (run rexec (redis_prog (OLoad now)) s) /\
+  fst (run rexec (redis_prog (OLoad now)) s) = s.
+Proof. exact redis_load_queue_independent. Qed.
+Print Assumptions C15_redis_load_ignores_announcements.
+
+(* a successful write() announces (timestamp, id) at the end of the list and
+   wait() hands the announcements out first in, first out, with that very id *)
+Theorem C15_redis_announcements : forall s r,
+  RRedis s r ->
+  (forall e ts cands tmps id, snd (redis_step s (OWrite e ts cands tmps)) = RId id ->
+     r_queue (fst (redis_step s (OWrite e ts cands tmps))) = r_queue s ++ [(ts, id)]) /\
+  (forall x q, r_queue s = x :: q -> run rexec redis_wait s = (mkRedis (r_hashes s) q, RLoad [x])).
+Proof.
+  intros s r H. split.
+  - intros e ts cands tmps id. apply (redis_write_announces s r); exact H.
+  - intros x q. apply redis_wait_fifo.
+Qed.
+Print Assumptions C15_redis_announcements.
+
 Theorem C15_refines_cloud : forall mq ops s r,
   RCloud s r -> wf_ops r ops = true ->
   RCloud (fst (cloud_run mq s ops)) (fst (ref_run r ops)) /\
